@@ -13,7 +13,7 @@
    ValueError of list.remove, the asserts, rustworkx NoEdgeBetweenNodes).  Conditions the code does NOT check
    but the samplers always meet are collected in [pre] (side conditions of the edit grammar). *)
 From PV Require Export Base.Dist.
-From Coq Require Export Bool PeanoNat.
+From Coq Require Export Bool PeanoNat Permutation.
 Open Scope nat_scope.
 
 Definition vec := list Qc.
@@ -335,14 +335,54 @@ Inductive okn : lnode -> Prop :=
 | OkN l o p r ks : p = pfresh o -> r = Fr p (map rr ks) -> Forall okn ks -> okn (LNode l o p r ks).
 Definition cache_ok (t : ltree) : Prop :=
   Forall okn (troots t) /\ (troots t <> [] -> rootr t = Fr prior (map rr (troots t))).
+(* executable version of cache_ok (sound: Proofs/LTreeCache.v cache_okb_sound) *)
+Definition qceqb (a b : Qc) : bool := Qeq_bool (this a) (this b).
+Fixpoint veqb (a b : vec) : bool :=
+  match a, b with [], [] => true | x :: a', y :: b' => qceqb x y && veqb a' b' | _, _ => false end.
+Fixpoint oknb (n : lnode) : bool :=
+  match n with LNode l o p r ks => veqb p (pfresh o) && veqb r (Fr p (map rr ks)) && forallb oknb ks end.
+Definition cache_okb (t : ltree) : bool :=
+  forallb oknb (troots t)
+  && match troots t with [] => true | _ => veqb (rootr t) (Fr prior (map rr (troots t))) end.
+
 (* what the joint densities read: the shape/assignment and, if the tree has clones, the root vector *)
 Definition root_lik (t : ltree) : option vec := match troots t with [] => None | _ => Some (rootr t) end.
 
 (* C07: names unique, every data point held exactly once (clones and outliers together) *)
 Definition wf (t : ltree) : Prop := NoDup (labels t) /\ NoDup (idxs (points t)).
 
+(* data values are positive grids of the right size (needed where the code subtracts a value) *)
+Definition okd (N : nat) (d : dp) : Prop := length (dp_val d) = N /\ Forall (fun q => (0 < q)%Qc) (dp_val d).
+Definition data_ok (N : nat) (t : ltree) : Prop := Forall (okd N) (points t).
+
 (* side conditions of the grammar that the code does not check itself *)
 Definition contiguous (t : ltree) : Prop := Forall (fun l => l < num_nodes t) (labels t).
 Definition new_points (ds : list dp) (t : ltree) : Prop :=
   NoDup (idxs ds) /\ (forall i, In i (idxs ds) -> ~ In i (idxs (points t))).
+(* what the grammar assumes about an edit in state t beyond what the code checks:
+   - NewClone: names are 0..n-1 (true for every tree the SMC builds from scratch and after relabel_nodes),
+     the data points are new;
+   - SubtreeResample: the SMC result sub' is a sound tree over exactly the data of the extracted subtree. *)
+Definition pre (e : edit) (t : ltree) : Prop :=
+  match e with
+  | NewClone _ data => contiguous t /\ new_points data t
+  | SubtreeResample x s =>
+      wf s /\ forall par s0 rest, extract x t = Some (par, s0, rest) -> Permutation (points s) (points s0)
+  | _ => True
+  end.
+(* data introduced by an edit is positive and of the right size; a grafted SMC result has sound caches *)
+Definition edit_ok (N : nat) (e : edit) : Prop :=
+  match e with
+  | NewClone _ data => Forall (okd N) data
+  | AddPoint d _ => okd N d
+  | SubtreeResample _ s => cache_ok s /\ data_ok N s
+  | _ => True
+  end.
+(* the data points an edit is specified to add *)
+Definition delta (e : edit) : list dp :=
+  match e with NewClone _ data => data | AddPoint d _ => [d] | _ => [] end.
+(* a history all of whose edits meet their side conditions when they are applied *)
+Fixpoint pres (es : list edit) (t : ltree) : Prop :=
+  match es with [] => True | e :: rest =>
+    pre e t /\ forall t', step e t = Some t' -> pres rest t' end.
 End Ops.
